@@ -96,6 +96,7 @@ class Pure:
         cls.axioms = []
         cls.var_axioms = {}
         cls.defs = {}
+        cls.eager = set()
         cls.counter = itertools.count()
 
     @classmethod
@@ -106,6 +107,13 @@ class Pure:
         if hit is not None:
             return hit[0]
         v = z3.Real("%s!%d" % (name, next(cls.counter)))
+        if name in cls.eager:
+            # eager Ackermann congruence with the earlier applications of the same function (relational runs)
+            for (v2, name2, args2) in list(cls.tab.values()):
+                if name2 == name and len(args2) == len(args):
+                    pre = z3.simplify(z3.And(*[x == y for x, y in zip(args, args2)])) if args else z3.BoolVal(True)
+                    if not z3.is_false(pre):
+                        cls.axiom(z3.Implies(pre, v == v2), v)
         cls.tab[key] = (v, name, args)
         cls.byvar[v.get_id()] = (name, args, v)
         if pos:
@@ -150,6 +158,7 @@ class Pure:
         return None if hit is None else (hit[0], hit[1])
 
     defs = {}  # named variable id -> defining term (symx.named)
+    eager = set()  # function names whose congruence is asserted at creation
 
     @classmethod
     def near(cls, exprs, depth=2):
